@@ -103,8 +103,8 @@ type fakeChannel struct {
 	auth bool
 }
 
-func (c *fakeChannel) Cap() bus.CapabilityMap    { return c.cap }
-func (c *fakeChannel) EndPoint() qnet.EndPoint   { return c.ep }
+func (c *fakeChannel) Cap() bus.CapabilityMap     { return c.cap }
+func (c *fakeChannel) EndPoint() qnet.EndPoint    { return c.ep }
 func (c *fakeChannel) Send(m *qnet.Message) error { c.sent = append(c.sent, m); return nil }
 func (c *fakeChannel) SendError(m *qnet.Message, err error) error {
 	h := qnet.NewHeader(qnet.Error, m.Header.Service, m.Header.Object, m.Header.Action, m.Header.ID)
